@@ -34,7 +34,7 @@ RULE = ("KMeans::fit + predict on every 1-D data set of 2..5 rows over {0..4} (k
         "cluster, or coincident centroids; distinct = distinct inputs (data, k, max_iter / data, centroids)")
 
 FIT_HITS = ("KMFit", "FitLattice", "FitCont", "FitF32", "Means", "PredictFx", "PredictExact", "PredictTie", "FitModel",
-            "FitOffset", "FitOffsetExact", "EmptyCluster")
+            "FitOffset", "FitOffsetExact", "EmptyCluster", "ProbeEmpty")
 BBD_HITS = ("Bbd", "BbdTie", "BbdCoincident", "BbdEmpty", "BbdRational", "BbdModel", "BbdOffset")
 
 
@@ -167,6 +167,7 @@ def run(ctx):
     ctx.extra["empty_cluster_configs_from_model"] = len(ec)
     ctx.extra["refits_of_empty_cluster_configs"] = refits
     ctx.extra["fits_with_empty_cluster_observed"] = empty_fits
+    ctx.extra["distinct_outcomes_with_probe_labelled_by_memberless_centroid"] = hits.get("ProbeEmpty", 0)
     ctx.extra["not_covered"] = [
         "centroid means of non-dyadic / continuous data are checked at 2^-12 absolute only",
         "predict on continuous or single-precision data, or with an empty cluster, is checked at 2^-8 (near-ties accepted)",
